@@ -13,7 +13,7 @@ use crate::Emitter;
 
 pub fn generate(thorough: bool, seed: u64, em: &mut Emitter) {
     let mut r = Rng::new(seed ^ 0xC08);
-    generate_large_verify(seed, if thorough { 40 } else { 8 }, em);
+    generate_large_verify(seed, if thorough { 45 } else { 9 }, em);
     let n = if thorough { 40_000 } else { 2_500 };
     for i in 0..n {
         let mut rc = r.fork();
